@@ -2855,6 +2855,9 @@ impl<T: Storage> Raft<T> {
         let prev_timeout = self.randomized_election_timeout;
         let timeout =
             rand::thread_rng().gen_range(self.min_election_timeout..self.max_election_timeout);
+        #[cfg(tikv_raft_rs_verif)]
+        let timeout = verif_timeout::draw(self.min_election_timeout, self.max_election_timeout)
+            .unwrap_or(timeout);
         debug!(
             self.logger,
             "reset election timeout {prev_timeout} -> {timeout} at {election_elapsed}",
@@ -2962,5 +2965,36 @@ impl<T: Storage> Raft<T> {
         if let Some(pr) = self.mut_prs().get_mut(target) {
             pr.ins.set_cap(cap);
         }
+    }
+}
+
+/// Replayable election timeouts for the external verification harness.
+///
+/// Only compiled with `--cfg tikv_raft_rs_verif`. While a seed is installed on the
+/// current thread, randomized election timeouts are drawn from it (same range as
+/// usual); with no seed installed, behaviour is unchanged.
+#[cfg(tikv_raft_rs_verif)]
+pub mod verif_timeout {
+    use std::cell::Cell;
+
+    thread_local! {
+        static STATE: Cell<Option<u64>> = const { Cell::new(None) };
+    }
+
+    /// Installs (`Some`) or removes (`None`) the per-thread timeout seed.
+    pub fn seed(seed: Option<u64>) {
+        STATE.with(|s| s.set(seed.map(|v| v | 1)));
+    }
+
+    /// Draws a timeout in `[lo, hi)` from the installed seed, if any.
+    pub fn draw(lo: usize, hi: usize) -> Option<usize> {
+        STATE.with(|s| {
+            let mut x = s.get()?;
+            x ^= x << 13;
+            x ^= x >> 7;
+            x ^= x << 17;
+            s.set(Some(x));
+            Some(lo + (x >> 11) as usize % (hi - lo))
+        })
     }
 }
